@@ -37,7 +37,9 @@ EXPLANATION = (
     ' '
     'R-C03.17 = R-C01.18.'
     ' '
-    'R-C03.18 = R-C01.16.')
+    'R-C03.18 = R-C01.16.'
+    ' '
+    "R-C03.19 the SQLite add_column handler records an index in the tracked state only under a test of the field's db_index / unique / primary_key.")
 NOT_DECIDED = (
     'Equivalence of the optimised run and the one-at-a-time run (signature, '
     'schema, rows) for all sequences: needs execution of both.')
@@ -1187,7 +1189,45 @@ def r18_every_model_mutation_queues_an_op(ctx):
     r16_every_model_mutation_queues_an_op(ctx, rule_id='R-C03.18')
 
 
+def r19_index_recorded_only_for_indexed_columns(ctx):
+    """The SQLite add_column handler records the index of the new column in
+    the tracked DatabaseState (the rebuild creates it).  It may do so only
+    for a column that *has* one: every add_index / create_index call there
+    is controlled by a test of field.unique / primary_key / db_index.  A
+    phantom entry makes a later ChangeField(db_index=True) of the same run
+    find "its" index in the state and emit nothing."""
+    ctx.rule('R-C03.19')
+    p = ctx.program
+    f = p.func('db.sqlite3', 'EvolutionOperations.add_column')
+    g = ctx.cfg(f)
+    n = 0
+    for node in g.nodes:
+        for c in node.calls():
+            if call_name(c) not in ('add_index', 'create_index'):
+                continue
+            n += 1
+            idx_tests = [t for t in g.nodes if t.kind in ('test', 'operand')
+                         and t.ast is not None and any(
+                             isinstance(x, ast.Attribute) and x.attr in (
+                                 'db_index', 'unique', 'primary_key')
+                             for x in ast.walk(t.ast))]
+            drop = {(t.id, 'T') for t in idx_tests}
+            reach = g.reachable([g.entry], follow_exc=False, drop_edges=drop)
+            ctl = idx_tests if (idx_tests and node.id not in reach) else []
+            if ctl:
+                ctx.ok(f, 'index recorded under "%s"' % ' '.join(
+                    unparse(ctl[0].ast).split()), c)
+            else:
+                ctx.finding(f, c, 'the SQLite add_column handler records an '
+                            'index (%s) for the new column without testing '
+                            'that the field is indexed: the tracked state '
+                            'gains an index the database does not have' %
+                            call_name(c), key='phantom-index-recorded')
+    ctx.floor('index registrations in the SQLite add_column handler', n, 1)
+
+
 def run(ctx):
+    r19_index_recorded_only_for_indexed_columns(ctx)
     r18_every_model_mutation_queues_an_op(ctx)
     r17_index_names_from_columns(ctx)
     r16_every_mutator_replays_its_simulation(ctx)
